@@ -25,7 +25,7 @@ func init() { register("C13", runC13) }
 func runC13(r *rt.Runner) {
 	env := newPSEnv()
 	// ---- reading
-	nFiles := r.N(48, 1500)
+	nFiles := r.N(80, 1500)
 	for k := 0; k < nFiles; k++ {
 		r.Case("read-faults", func(c *rt.C) {
 			rng := c.Rand()
@@ -105,7 +105,7 @@ func runC13(r *rt.Runner) {
 	}
 
 	// ---- writing
-	nVals := r.N(48, 1500)
+	nVals := r.N(64, 1500)
 	for k := 0; k < nVals; k++ {
 		r.Case("write-faults", func(c *rt.C) {
 			rng := c.Rand()
